@@ -53,11 +53,9 @@ CLAIMED = {
             "Disturbed upgrades carry no traffic inside the window (virtual-time artifact otherwise); a cut after the completed upgrade is outside the property. Socket.IO-level upgrade traffic is covered by C01's upgrade class.",
             "DESIGN.md §3 C07"),
     "C08": ("exploration",
-            "model-based property testing (rapid) of the session-aware adapter against a reference log + exhaustive small episodes",
-            "rapid episodes: broadcasts to rooms / except / volatile / ack'd interleaved with a socket's join, leave, disconnect, restore-with-offset, expiry of the recovery window and the cleaner; "
-            "oracle: RestoreSession returns exactly the packets the reference log says the session missed (addressed to it under its membership at emit time, after its offset, non-volatile, unexpired), in "
-            "order, each once; otherwise (unknown pid, unknown/expired offset, expired session) no session and nothing replayed. Open finding KF-C08-1.",
-            "Adapter level (virtual time for expiry); the wire-level recovery handshake is covered through C01's recovery cases.",
+            "model-based property testing (rapid) of the session-aware adapter against a reference log; end-to-end recovery against a hand-written client that implements the recovery protocol",
+            "Adapter level: rapid histories in virtual time (window 2 s / 10 s, cleaner off / W/4 / W / 3W): joins, leaves, namespace / room(+except) / direct broadcasts (text, binary), disconnects, time advancing across the window, RestoreSession with own/unknown pid and last/older/unknown/empty offset; oracle: recovered => same sid, rooms, missed packets == reference log after the offset filtered by the session's rooms, re-encode to what was emitted; expired/unknown => not recovered. End to end: the real server (window 10 s / 2 min, cleaner 1 s / 2.5 s / 1 min, UseMiddlewares on/off) against a raw peer that tracks offsets and reconnects with {pid, offset}: loss by cut / black hole / forced close / DISCONNECT, broadcasts before the server can notice, staying away around the window, a second recovery; oracle: recovered iff eligible, replay == log, rooms restored, else fresh session with nothing replayed. Open finding KF-C08-1.",
+            "The Go client itself cannot track offsets for handlers whose last parameter is not a string (and breaks for those where it is: KF-C01-1), so the client side of recovery is exercised through C15 (clean fall-back).",
             "DESIGN.md §3 C08"),
     "C12": ("exploration",
             "property-based testing (rapid) of middleware chains on the virtual-time rig against a reference fold",
@@ -89,18 +87,14 @@ CLAIMED = {
             "(the default) is exercised. User maps that are exactly placeholder-shaped are excluded (protocol ambiguity).",
             "DESIGN.md §3 C09"),
     "C10": ("exploration",
-            "small-scope exhaustive enumeration + grammar-aware mutation (rapid) + native fuzzing, no-panic/value-or-error oracle",
-            "Parser level: EXHAUSTIVE enumeration of every string <= 4 (quick) / <= 6 (thorough) over the 12 protocol-significant bytes as first frame with 0..2 attachment frames; rapid "
-            "grammar-aware mutations of valid packets (counts, placeholder nums, flags, frame drop/dup/reorder, namespace without comma, id overflow, odd event names); native fuzzing. "
-            "Every completed packet is decoded twice against 10 handler-signature families. Oracle: no panic, Add returns an error or eventually finishes (attachment count must be a "
-            "representable positive integer, completion exactly at the declared count), decode returns values or an error, repeatably.",
-            "Parser-level only so far (process-level isolation of a hostile connection is being built); trusts the harness's reading of the header grammar.",
+            "small-scope exhaustive enumeration + grammar-aware mutation (rapid) + native fuzzing at parser level; generated hostile frame sequences against the running server and client at process level",
+            "Parser level: EXHAUSTIVE enumeration of every string <= 4 (quick) / <= 6 (thorough) over the 12 protocol-significant bytes as first frame with 0..2 attachment frames; rapid grammar-aware mutations of valid packets (counts, placeholder nums, flags, frame drop/dup/reorder, namespace without comma, id overflow); native fuzzing; every completed packet decoded twice against 10 handler-signature families; oracle: no panic, value-or-error, bounded allocation, repeatable. Process level (virtual-time network, polling and websocket): a hand-written hostile client against the real server and a hand-written hostile server against the real client send 1..12-frame sequences (raw hostile constants, family events with hostile JSON, binary events with hostile counts and missing / text attachments, mutated packets); a fresh parser predicts the decoder's verdict; oracle: header-level rejection => connection closed / close handlers run; undecodable event => error handler or close; the offending connection, other connections and later connections keep working; every API call afterwards returns; no crash.",
+            "The process-level prediction uses the repository's own parser (its correctness is the parser-level check's subject); self-deadlocks are decided by the watchdog plus a real-clock re-run.",
             "DESIGN.md §3 C10"),
     "C13": ("exploration",
-            "small-scope exhaustive enumeration + rapid, validity predicate over the batching",
-            "Client batcher through the verif export shim: EXHAUSTIVE over every vector of <= 5 (quick) / <= 6 (thorough) packet sizes x every maxPayload, text and text/binary mixes, plus rapid "
-            "vectors with realistic sizes around 1e6; validity predicate (batches concatenate to the input, none empty, every multi-packet batch within maxPayload).",
-            "Batcher part only so far (server-side limits per transport are being built on the rig).",
+            "small-scope exhaustive enumeration + rapid for the client batcher (validity predicate); rapid with hand-written HTTP/WebSocket peers for the server's limits per transport",
+            "Batcher: EXHAUSTIVE over every vector of <= 5 (quick) / <= 6 (thorough) packet sizes x every maxPayload, text and text/binary mixes, plus rapid vectors around 1e6; predicate: batches concatenate to the input, none empty, every multi-packet batch within maxPayload. Limits: MaxBufferSize in {100, 1000, 40000, default, disabled} x {POST with Content-Length, POST with chunked body, WebSocket text/binary message} from hand-written peers and server -> client over {polling, websocket} to the real client, sizes limit +- 12, x0.5, x2, x10, 32 KiB +- 12, 64 KiB +- 12; oracle: handshake announces the configured limit; within it => delivered in full, nothing closes; more than one byte beyond => never delivered and the connection closed; disabled => everything accepted.",
+            "WebTransport limits are covered at function level by C11 (no QUIC in the virtual-time network). One byte of slack at the boundary (whether the packet-type byte counts is not fixed by the text).",
             "DESIGN.md §3 C13"),
     "C15": ("exploration",
             "property-based testing (rapid): back-off function against its bounds + reconnect state machine with generated outages on the virtual-time rig",
@@ -127,11 +121,9 @@ CLAIMED = {
             "spontaneously are aborted and counted (the registry oracle needs a known number of occurrences).",
             "DESIGN.md §3 C18"),
     "C19": ("exploration",
-            "forced-schedule property testing in virtual time (yield hook) + exhaustive placement enumeration",
-            "The real pollQueue/packetQueue in a synctest bubble; a yield hook parks the consumer between its emptiness check and its wait while 'window' producers run. EXHAUSTIVE over "
-            "placements (<= 3 producers x {before, window, after} x 1-2 consumers x finale) and rapid over sizes/hits; oracle: every packet handed over reaches a consumer within 1 s of virtual "
-            "time, exactly once, FIFO; no empty poll while queued; consumers terminate.",
-            "Queue level only so far (end-to-end polling latency on the rig is being built). Schedules are forced only at the hook sites.",
+            "forced-schedule property testing in virtual time (yield hook) + exhaustive placement enumeration at queue level; end-to-end latency oracle on the zero-latency virtual-time rig",
+            "Queue level: the real pollQueue/packetQueue in a synctest bubble; a yield hook parks the consumer between its emptiness check and its wait while 'window' producers run; EXHAUSTIVE over placements (<= 3 producers x {before, window, after} x 1-2 consumers x finale incl. close/reset/shutdown) and rapid over sizes/timings; oracle: every packet handed over reaches a consumer within the stated virtual bound, exactly once, FIFO; no empty poll while queued; consumers terminate. End to end: real server and client (polling, websocket, upgrade; link latency 0/1/20 ms), 1..12 emit instants with gaps 0..31 s around the 25 s heartbeat, bursts from concurrent goroutines; oracle: handler entry within 6 link traversals + 20 ms of virtual time after Emit.",
+            "Schedules are forced only at the hook sites; elsewhere they are those the bubble's scheduler produces.",
             "DESIGN.md §3 C19"),
 }
 
